@@ -3,7 +3,9 @@
 Writes the outcome into seeded/<id>/result.json.  Evidence/replays of these runs go to a scratch dir."""
 import json, os, subprocess, sys, tempfile, shutil
 V = os.path.dirname(os.path.dirname(os.path.abspath(__file__)))
-only = sys.argv[1:] 
+args = sys.argv[1:]
+scratch_mode = "--scratch" in args   # patch a scratch copy of /repo/tatsu (VERIF_REPO) instead of /repo itself
+only = [a for a in args if not a.startswith("--")]
 ok = True
 for n in sorted(os.listdir(os.path.join(V, "seeded"))):
     if only and n not in only:
@@ -11,18 +13,25 @@ for n in sorted(os.listdir(os.path.join(V, "seeded"))):
     d = os.path.join(V, "seeded", n)
     meta = json.load(open(os.path.join(d, "meta.json")))
     prop = meta["property"]
-    assert subprocess.run(["git", "-C", "/repo", "status", "--porcelain"], capture_output=True, text=True).stdout.strip() == "", "/repo not clean"
     tmp = tempfile.mkdtemp(prefix="seeded-", dir="/dev/shm")
     try:
-        subprocess.run(["git", "-C", "/repo", "apply", os.path.join(d, "patch.diff")], check=True)
         env = dict(os.environ, VERIF_EVIDENCE_DIR=tmp, VERIF_REPLAY_DIR=tmp)
+        if scratch_mode:
+            tree = os.path.join(tmp, "tree")
+            shutil.copytree("/repo/tatsu", os.path.join(tree, "tatsu"), ignore=shutil.ignore_patterns("__pycache__", "*.pyc"))
+            subprocess.run(["patch", "-p1", "-s", "-d", tree, "-i", os.path.join(d, "patch.diff")], check=True)
+            env["VERIF_REPO"] = tree
+        else:
+            assert subprocess.run(["git", "-C", "/repo", "status", "--porcelain"], capture_output=True, text=True).stdout.strip() == "", "/repo not clean"
+            subprocess.run(["git", "-C", "/repo", "apply", os.path.join(d, "patch.diff")], check=True)
         p = subprocess.run([os.path.join(V, "check"), prop, "--tier", "quick"], env=env, capture_output=True, text=True)
     finally:
-        subprocess.run(["git", "-C", "/repo", "checkout", "--", "."], check=True)
+        if not scratch_mode:
+            subprocess.run(["git", "-C", "/repo", "checkout", "--", "."], check=True)
         shutil.rmtree(tmp, ignore_errors=True)
     sigs = [l.strip() for l in p.stdout.splitlines() if l.strip().startswith("signature=")]
     caught = p.returncode == 1 and "VIOLATION property=" in p.stdout
-    json.dump({"check": f"./check {prop} --tier quick", "exit": p.returncode, "caught": caught, "signatures": [s[:300] for s in sigs[:3]]},
+    json.dump({"check": f"./check {prop} --tier quick", "mode": "scratch copy (VERIF_REPO)" if scratch_mode else "applied to /repo and undone", "exit": p.returncode, "caught": caught, "signatures": [s[:300] for s in sigs[:3]]},
               open(os.path.join(d, "result.json"), "w"), indent=1)
     print(f"{n:8s} {prop} exit={p.returncode} caught={caught} {sigs[:1]}"[:260], flush=True)
     ok = ok and caught
